@@ -17,6 +17,9 @@ Variable H : text -> list N -> text.
 Variable dsz : text -> nat.
 Variable uni : N -> N.
 
+Lemma eff_ip_later c r : eff_ip c (later r) = eff_ip c r.
+Proof. unfold eff_ip, later. destruct (tick r); reflexivity. Qed.
+
 Lemma eff_ip_with_cookie c r v : eff_ip c (with_cookie r v) = eff_ip c r.
 Proof. reflexivity. Qed.
 
@@ -121,10 +124,10 @@ Proof.
   destruct Eu as [-> ->].
   destruct (reissue_time c) as [rt|]; [|simpl; discriminate].
   destruct (negb (reissued st) && cmp_eval reissue_cmp (now2 r' - 2 * ts) (2 * rt)); [|simpl; discriminate].
-  destruct (remember H c r' u (max_age c) (filter nonempty match toks with [] => [[]] | _ :: _ => toks end)) eqn:RR;
+  destruct (remember H c (later r') u (max_age c) (filter nonempty match toks with [] => [[]] | _ :: _ => toks end)) eqn:RR;
     [simpl; discriminate|].
   exfalso. revert RR. apply remember_some_inv; auto.
-  - rewrite Hip. exact R1.
+  - rewrite eff_ip_later, Hip. exact R1.
   - destruct toks as [|t0 tr]; [reflexivity|]. apply forallb_filter. exact R3.
 Qed.
 
@@ -190,7 +193,7 @@ Proof.
     destruct (identify_pre H dsz uni c r) as [|ts u tk ud|] eqn:P; try reflexivity.
     destruct (reissue_time c) as [rt|]; [|reflexivity].
     destruct (negb (reissued st) && cmp_eval reissue_cmp (now2 r - 2 * ts) (2 * rt)); [|reflexivity].
-    rewrite (remember_agree c r u (max_age c) (filter nonempty tk)); [reflexivity|].
+    rewrite (remember_agree c (later r) u (max_age c) (filter nonempty tk)); [reflexivity|].
     intros m Hm. apply A. apply in_or_app. right. exact Hm.
   - rewrite (remember_agree c r u ma toks A). reflexivity.
   - reflexivity.
@@ -212,3 +215,88 @@ Proof.
 Qed.
 
 End OracleComplete.
+
+(* ================================================================== two helpers consulted for one request *)
+Section TwoHelpers.
+Variable H : text -> list N -> text.
+Variable dsz : text -> nat.
+Variable uni : N -> N.
+
+(* only operations on the first helper: the single-helper run *)
+Lemma run_ops2_single c0 r0 c1 r1 ops : forall st,
+  run_ops2 H dsz uni c0 r0 c1 r1 st (map (fun o => (false, o)) ops) = run_ops H dsz uni c0 r0 st ops.
+Proof.
+  induction ops as [|o ops IH]; intros st; [reflexivity|].
+  cbn [map run_ops2 run_ops]. destruct (step H dsz uni c0 r0 st o) as [st1 x]. rewrite IH. reflexivity.
+Qed.
+
+(* what one answer of an operation may be, given the helper it was addressed to *)
+Definition answer_ok (c : cfg) (r : req) (x : out) : Prop :=
+  match x with
+  | OutId (ISome _ _ _ _) => exists ck0, cookie r = Some ck0 /\ digest_ok H dsz uni c r ck0 = true
+  | _ => True
+  end.
+
+Lemma step_answer_ok c r st o :
+  (forall a x, forallb valid_scalar (H a x) = true) ->
+  (forall ck0, cookie r = Some ck0 -> forallb valid_scalar ck0 = true) ->
+  answer_ok c r (snd (step H dsz uni c r st o)).
+Proof.
+  intros HS Hck. destruct o as [|u ma toks|]; cbn [step].
+  - destruct (identify H dsz uni c r st) as [st' res] eqn:E. cbn [snd answer_ok].
+    destruct res as [|ts u tk ud|]; auto.
+    destruct (cookie r) as [ck0|] eqn:Ec.
+    + exists ck0. split; [reflexivity|].
+      destruct (digest_ok H dsz uni c r ck0) eqn:D; [reflexivity|].
+      destruct (identify_total H dsz uni c r st ck0 HS (Hck ck0 eq_refl) Ec D) as [E1 _].
+      rewrite E in E1. discriminate.
+    + rewrite (identify_no_cookie H dsz uni c r st Ec) in E. inversion E.
+  - destruct (remember H c r u ma toks); exact I.
+  - exact I.
+Qed.
+
+(* HISTORY INDEPENDENCE of acceptance: whatever either helper did earlier on the same request (identify, remember,
+   forget, in any order), a helper accepts a ticket only if the ticket's digest field is the keyed digest of its other
+   fields under THAT helper's secret, algorithm and address *)
+Theorem two_helpers_accept_implies_digest c0 r0 c1 r1 ops : forall st,
+  (forall a x, forallb valid_scalar (H a x) = true) ->
+  (forall ck0, cookie r0 = Some ck0 -> forallb valid_scalar ck0 = true) ->
+  (forall ck0, cookie r1 = Some ck0 -> forallb valid_scalar ck0 = true) ->
+  Forall2 (fun (bo : bool * op) x => if fst bo then answer_ok c1 r1 x else answer_ok c0 r0 x)
+          ops (snd (run_ops2 H dsz uni c0 r0 c1 r1 st ops)).
+Proof.
+  induction ops as [|[b o] ops IH]; intros st HS H0 H1; [constructor|].
+  cbn [run_ops2].
+  destruct b.
+  - pose proof (step_answer_ok c1 r1 st o HS H1) as A. destruct (step H dsz uni c1 r1 st o) as [st1 x].
+    specialize (IH st1 HS H0 H1). destruct (run_ops2 H dsz uni c0 r0 c1 r1 st1 ops) as [st2 xs].
+    constructor; assumption.
+  - pose proof (step_answer_ok c0 r0 st o HS H0) as A. destruct (step H dsz uni c0 r0 st o) as [st1 x].
+    specialize (IH st1 HS H0 H1). destruct (run_ops2 H dsz uni c0 r0 c1 r1 st1 ops) as [st2 xs].
+    constructor; assumption.
+Qed.
+
+End TwoHelpers.
+
+Section OracleComplete2.
+Variables H H' : text -> list N -> text.
+Variable dsz : text -> nat.
+Variable uni : N -> N.
+
+Theorem oracle_complete2 c0 r0 c1 r1 ops : forall st,
+  agree_all H H' c0 (flat_map (fun bo : bool * op => if fst bo then [] else msgs_op H dsz uni c0 r0 (snd bo)) ops) ->
+  agree_all H H' c1 (flat_map (fun bo : bool * op => if fst bo then msgs_op H dsz uni c1 r1 (snd bo) else []) ops) ->
+  run_ops2 H dsz uni c0 r0 c1 r1 st ops = run_ops2 H' dsz uni c0 r0 c1 r1 st ops.
+Proof.
+  induction ops as [|[b o] ops IH]; intros st A0 A1; [reflexivity|].
+  cbn [run_ops2 flat_map fst snd] in *.
+  destruct b.
+  - rewrite (step_agree H H' dsz uni c1 r1 st o) by (intros m Hm; apply A1; apply in_or_app; left; exact Hm).
+    destruct (step H' dsz uni c1 r1 st o) as [st1 x].
+    rewrite IH; [reflexivity|exact A0|intros m Hm; apply A1; apply in_or_app; right; exact Hm].
+  - rewrite (step_agree H H' dsz uni c0 r0 st o) by (intros m Hm; apply A0; apply in_or_app; left; exact Hm).
+    destruct (step H' dsz uni c0 r0 st o) as [st1 x].
+    rewrite IH; [reflexivity|intros m Hm; apply A0; apply in_or_app; right; exact Hm|exact A1].
+Qed.
+
+End OracleComplete2.
